@@ -253,10 +253,13 @@ package node
 //@ func (UnOp).byteCode [C05,C12] implements ByteCoder.byteCode
 //@   assumes[unfold] exprOK(u.Target) && (u.Op == "-" || u.Op == "#" || u.Op == "!" || u.Op == "~")
 //@   assumes[fold]   wfAST(BinOp{Op: "*", Left: Int(-1), Right: u.Target})   // negation is compiled as (-1) * target: a well-formed product of two expressions
-//@ func (Block).byteCode [C05,C12] implements ByteCoder.byteCode
+//@ func (Block).byteCode [C05,C12,C09] implements ByteCoder.byteCode
 //@   assumes[unfold] len(b.Body) >= 1 && (forall k :: 0 <= k && k < len(b.Body) ==> wfAST(b.Body[k]))
 //@   requires[sel01] srcsel <= 1
 //@   loop 0 invariant[stmts] -1 <= rangeindex && rangeindex < len(b.Body) && emitInv(cr)
+// C09: a statement that is not the last of its block leaves nothing behind: its value is either not
+// produced on the operand stack or popped at once.
+//@   loop 0 invariant[mid_results_dropped] (0 <= rangeindex && rangeindex < len(b.Body) - 1) ==> bck(instr, srcsel) != bytecode.AddrStck
 //@   loop 0 invariant[last] (rangeindex == len(b.Body) - 1 || len(b.Body) == 0) ==> (descOnly(instr, srcsel) && operandOK(instr, srcsel, len(*cr.DS)) && bck(instr, srcsel) != bytecode.AddrImm
 //@       && (rangeindex >= 0 && bck(instr, srcsel) == bytecode.AddrInv ==> fl.Data().Discard || fl.Data().Returning || fl.Data().InFunc)
 //@       && (bck(instr, srcsel) == bytecode.AddrTmp ==> !fl.Data().ForbidTemp && (fl.Data().OpDepth > 0 || fl.Data().AcceptTemp || fl.Data().Discard)))
